@@ -1,13 +1,27 @@
 package scengen
 
 import (
+	"bytes"
+	"sync"
+
 	"gopkg.in/yaml.v2"
 )
+
+// mergeKeyAlias is what yKVs writes for the map key `<<`: yaml.v2 emits that
+// key unquoted (it would read back as a merge key), so RenderYAML marshals an
+// alias and replaces it by the quoted form `"<<"` in the text.
+var mergeKeyAlias = "<<"
+
+var renderMu sync.Mutex
 
 func yKVs(k KVs) yaml.MapSlice {
 	out := yaml.MapSlice{}
 	for _, e := range k {
-		out = append(out, yaml.MapItem{Key: e.K, Value: e.V})
+		key := e.K
+		if key == "<<" {
+			key = mergeKeyAlias
+		}
+		out = append(out, yaml.MapItem{Key: key, Value: e.V})
 	}
 	return out
 }
@@ -172,7 +186,30 @@ func YAMLDoc(m Model) yaml.MapSlice {
 // RenderYAML writes the description in the YAML syntax. Locals and Exprs are
 // HCL-only and do not appear: every attribute shows its plain value.
 func RenderYAML(m Model) []byte {
-	b, err := yaml.Marshal(YAMLDoc(m))
+	renderMu.Lock()
+	defer renderMu.Unlock()
+	n := 0
+	m.WalkStrings(func(path, s string) {
+		if s == "<<" && len(path) > 4 && path[len(path)-4:] == ".key" {
+			n++
+		}
+	})
+	if n == 0 {
+		return marshalYAML(YAMLDoc(m))
+	}
+	defer func() { mergeKeyAlias = "<<" }()
+	for alias := "zzMERGEKEYzz"; ; alias += "z" {
+		mergeKeyAlias = alias
+		b := marshalYAML(YAMLDoc(m))
+		if bytes.Count(b, []byte(alias)) != n {
+			continue // the alias occurs in a string of the description: take another one
+		}
+		return bytes.ReplaceAll(b, []byte(alias), []byte(`"<<"`))
+	}
+}
+
+func marshalYAML(doc yaml.MapSlice) []byte {
+	b, err := yaml.Marshal(doc)
 	if err != nil {
 		panic("scengen: yaml.Marshal: " + err.Error())
 	}
